@@ -11,21 +11,24 @@ package main
 // unrecoverable runtime error ("out of memory", "stack overflow") or never return. The worker
 // that owns the evidence counters must survive that, name the exact input, and go on: a
 // goroutine cannot be killed, a process can. The worker streams requests over a pipe; when
-// the server dies the first unanswered (sub-)request is the culprit, its stderr says how it
-// died, and a fresh server takes over. The server inherits the address space limit
-// (ulimit -v) the driver put on the worker.
+// the server dies the (sub-)request it was working on is the culprit (see the progress page
+// below), its stderr says how it died, and a fresh server takes over. The server inherits the
+// address space limit (ulimit -v) the driver put on the worker and lowers it for itself.
 //
-// Termination is decided on CPU time: the worker polls the server's consumed CPU
-// (/proc/<pid>/stat) while an answer is outstanding; 20 s of CPU for one input of at most
-// 64 KiB is a violation ("nonterminating"), a stall without CPU consumption is inconclusive.
+// Termination is decided on CPU time: while answers are outstanding the worker compares the
+// server's consumed CPU (/proc/<pid>/stat) with the CPU clock the server noted at the start of
+// the (sub-)request it is working on; 20 s of CPU for one input (all its input modes together)
+// is a violation ("nonterminating"), a stall without CPU consumption is inconclusive.
 //
-// Answers are written in bulk (one write per request batch, not one per decode). What the
-// per-decode flush used to provide — "the first unanswered (sub-)request is the culprit" — now
-// comes from a progress page both processes map (progress.go): before every decode the server
+// Answers are written in bulk (when the server is about to wait for input, every 1024 answers
+// and every 300 ms), not one write per decode. Which decode a dead server was working on comes
+// from a progress page both processes map (progress.go): before every decode the server
 // stores there the index of the answer it is working on, the input mode of that decode and its
 // CPU clock at the start. The page survives the server: after a death the worker reads which
 // decode was running (the culprit), re-sends the decodes whose answers were still buffered
 // and goes on behind the culprit. The CPU watchdog reads the same page.
+//
+// WC04_PROF=<path> (development aid): every server writes a CPU profile to <path>.<pid>.
 //
 // Input modes (inmode.go): every buffer-mode (sub-)request carries a mask of extra input modes;
 // the server decodes the input once per mode and reports outcome, result fingerprint
